@@ -461,7 +461,13 @@ func (c *Ctx) tokFunc(fn *ssa.Function, sum int, which map[string]bool, res *tok
 		c.S.OK(rule, rule+"|"+name+"|"+construct, pos, name, reason, true)
 	}
 
+	defer func() { pathx.ParamBind = nil }()
 	for _, p := range paths {
+		// token channels reached through a parameter of a helper expanded on
+		// this path are the caller's: out.seqSem with out = &c.atLeastOnce
+		// (bound as the helpers are entered: one helper called twice on a path
+		// stands for two different instances)
+		pathx.ParamBind = map[ssa.Value]ssa.Value{}
 		m := tokMap{}
 		if sum == sumInit {
 			for _, t := range []string{tkConn, tkWrite, tkALO, tkEO, tkOn, tkOff} {
@@ -492,6 +498,15 @@ func (c *Ctx) tokFunc(fn *ssa.Function, sum int, which map[string]bool, res *tok
 				bi++
 			}
 			e := &p.Events[i]
+			if e.Kind == pathx.KEnter && i > 0 {
+				if call := &p.Events[i-1]; call.Kind == pathx.KCall && call.Callee == e.Callee && e.Callee != nil {
+					for k, pr := range e.Callee.Params {
+						if k < len(call.Args) {
+							pathx.ParamBind[pr] = call.Args[k]
+						}
+					}
+				}
+			}
 			switch e.Kind {
 			case pathx.KAssume:
 				for _, a := range e.Atoms {
